@@ -12,12 +12,19 @@ import RV.Base.Proto
   N-Triples lines; terms as  i:IRI | b:LABEL | l:LEX:DT|*:LANG|*  (code points):
     ntparse LINE       -> ok S P O | none        the W3C line grammar applied to a line rdflib wrote
     ntrow S P O        -> code points of the line the writer model (`_nt_row`) produces
+    ntdoc TEXT         -> ok N S P O S P O … | none   the whole document through the model reader (`readDoc`): line grammar
+                          per line, labels through the per-document table; blank nodes come back as b:<creation number>
   Base relativisation (code points):
     strip BASE IRI     -> rel | abs      `_strippable_base` (Serializer.relativize: RDF/XML writers)
     stript BASE IRI    -> rel | abs      `RecursiveSerializer.relativize` (turtle, longturtle, n3)
   Terms of graphs: i<n> (IRI; i0 = rdf:first, i1 = rdf:rest, i2 = rdf:nil), l<n> (literal), b<n> (blank node).
     vl H s p o s p o …       -> true | false | nofuel   `isValidList(H)` on the graph, nothing serialized yet
     pre h1,h2,… s p o …      -> ok | bad                decidable `Pre`: may exactly these blank nodes go unlabelled?
+    choice ORD s p o …       -> H <b…> T <tok…> [NOFUEL]  the recursive writer's own choice (`choice`): H = the blank nodes
+                                 written without a label (hidden in object position or `[]` subjects), ascending; T = the
+                                 top-level statements in the order written: i (an IRI subject), b<n> (labelled), a (`[]`).
+                                 i3 = rdf:type, i4 = rdfs:Class; ORD = comma list, ORD[n] = place of IRI n in rdflib's
+                                 order on IRIs (`-` = by number); blank nodes are numbered in rdflib's order.
   HexTuples object columns (value, datatype, language); `*` = absent:
     hext i IRI | hext b LABEL | hext l LEX DT|* LANG|*   -> V D L          the row the writer model produces
     hextp V D L        -> i IRI | b LABEL | l LEX DT|* LANG|*   the reader model, normalised by the RDF 1.1
@@ -143,4 +150,49 @@ def step (s : Unit) : List String → Unit × String
     | _, _ => (s, "bad-op")
   | _ => (s, "bad-op")
 
-def main : IO Unit := RV.Proto.run step ()
+def nats? (w : String) : Option (List Nat) :=
+  if w = "-" then some [] else (w.splitOn ",").mapM (·.toNat?)
+
+def insNat (a : Nat) : List Nat → List Nat
+  | [] => [a]
+  | b :: t => if a < b then a :: b :: t else if a = b then b :: t else b :: insNat a t
+
+def showIds (l : List Nat) : String :=
+  if l.isEmpty then "-" else ",".intercalate (l.map (fun n => "b" ++ toString n))
+
+def showTop : Term × Bool → String
+  | (_, true) => "a"
+  | (.bn (.orig n), false) => "b" ++ toString n
+  | (_, false) => "i"
+
+def showChoice (g : Graph) (ord : List Nat) : String :=
+  let st := choice g ord
+  let anon := (st.2.filter (·.2)).map (fun t => origId t.1)
+  let h := (hiddenIds st ++ anon).foldl (fun acc n => insNat n acc) []
+  let t := if st.2.isEmpty then "-" else ",".intercalate (st.2.map showTop)
+  "H " ++ showIds h ++ " T " ++ t ++ (if wDeep g ord then " NOFUEL" else "")
+
+def stepChoice : List String → Option String
+  | o :: rest => match nats? o, triples? rest with
+    | some ord, some g => some (showChoice g ord)
+    | _, _ => none
+  | _ => none
+
+def showRTerm : RTerm → String
+  | .iri i => "i:" ++ showCps i
+  | .bnode n => "b:" ++ toString n
+  | .lit lex dt lang => "l:" ++ showCps lex ++ ":" ++ showOptCps dt ++ ":" ++ showOptCps lang
+
+def showDoc : Option (List Str × List RTriple) → String
+  | none => "none"
+  | some (_, ts) => "ok " ++ toString ts.length ++
+      String.join (ts.map (fun t => " " ++ showRTerm t.1 ++ " " ++ showRTerm t.2.1 ++ " " ++ showRTerm t.2.2))
+
+def step' (s : Unit) : List String → Unit × String
+  | ["ntdoc", a] => match cps? a with
+    | some x => (s, showDoc (readDoc [] (splitLines [] x))) | none => (s, "bad-op")
+  | "choice" :: rest => match stepChoice rest with
+    | some r => (s, r) | none => (s, "bad-op")
+  | l => step s l
+
+def main : IO Unit := RV.Proto.run step' ()
